@@ -560,6 +560,43 @@ def run_impl(rec, path, gen, model_sections=False):
     return ('ok', list(rec.calls)), res
 
 
+def gases_missing(chem, names):
+    have = set(list(chem.activeGases) + list(chem.inactiveGases))
+    return sorted(n for n in names if n not in have)
+
+
+def chemistry_subsections_attached(ctx, rng, files, tmp):
+    """every run: gas sub-sections under each kind of chemistry selector that accepts gases -- the free chemistry, and
+    the documented composite `makefree+file` (a chemistry file made free by the mixin), in both spellings"""
+    from taurex.parameter import ParameterParser
+    heads = ['chemistry_type = taurex\nfill_gases = H2, He\nratio = 0.17\n',
+             'chemistry_type = makefree+file\nfilename = %s\ngases = H2O, CH4\n' % files['chem'],
+             'chemistry_type = MakeFree+File\nfilename = %s\ngases = H2O, CH4\n' % files['chem']]
+    for hd in heads:
+        subs = rng.sample(['N2', 'CO2', 'NH3', 'CO'], rng.randint(1, 3))
+        text = '[Chemistry]\n' + hd + ''.join('    [[%s]]\n    gas_type = constant\n    mix_ratio = %g\n'
+                                             % (g, 10 ** rng.uniform(-6, -3)) for g in subs)
+        path = os.path.join(tmp, 'chem_case.par')
+        open(path, 'w').write(text)
+        ctx.case(('chemistry-subsections', hd.split('\n')[0], tuple(subs)))
+        try:
+            pp = ParameterParser()
+            with contextlib.redirect_stdout(io.StringIO()), np.errstate(all='ignore'):
+                pp.read(path)
+                chem = pp.generate_chemistry_profile()
+        except Exception as e:
+            ctx.violation('chemistry:composite-raises', 'a documented chemistry selector with gas sub-sections raised %r' % (e,),
+                          replay=dict(text=text))
+            continue
+        bad = gases_missing(chem, subs) if hasattr(chem, 'addGas') else subs
+        if bad:
+            ctx.violation('chemistry:gas-subsection-dropped', 'gas sub-sections %s are not part of the %s built from the '
+                          'input file' % (bad, type(chem).__name__), replay=dict(text=text))
+        else:
+            ctx.validated()
+        ctx.count('chemistry selector with gas sub-sections: ' + hd.split('\n')[0].split('=')[1].strip())
+
+
 # ---------------------------------------------------------------------------------- the check
 def run(ctx):
     import configobj
@@ -579,6 +616,7 @@ def run(ctx):
     try:
         static_checks(ctx, reg, mix, header)
         documented_keys_usable(ctx, rng, reg, files, rec, tmp)
+        chemistry_subsections_attached(ctx, rng, files, tmp)
         component_cases(ctx, rng, reg, mix, header, files, rec, tmp, configobj)
     finally:
         rec.remove()
@@ -911,6 +949,13 @@ def component_cases(ctx, rng, reg, mix, header, files, rec, tmp, configobj):
                 continue
             alit = C.clist(['(%s, TStr %s)' % (coq_str(k), coq_str(repr(v))) for k, v in pargs.items()])
             e = 'out1 (create_prior reg_Prior %s %s)' % (coq_str(pname), alit)
+        # every gas sub-section is attached to the chemistry that was built (whatever class the selector resolved to,
+        # as long as it accepts gases)
+        if sec == 'Chemistry' and impl[0] == 'ok' and hasattr(res, 'addGas'):
+            bad = gases_missing(res, [k for k, v in rsec.items() if isinstance(v, dict)])
+            if bad:
+                ctx.violation('chemistry:gas-subsection-dropped', 'gas sub-sections %s were constructed but are not part of '
+                              'the %s built from the input file' % (bad, type(res).__name__), replay=dict(text=text))
         # only the calls that build THIS section's objects
         if impl[0] in ('ok', 'partial'):
             calls = impl[1]
